@@ -367,11 +367,11 @@ SUBS = [
         rule="hedging scenario (all derivative/underlier types, listed or not) x ~40 operations on instruments and ~10 operation groups on "
              "caller tensors; every generated case is non-trivial (each runs the whole sweep).",
         strategy=lambda tier: scenario(models=("linear", "mlp", "bs", "ww", "naked", "recurrent", "identity", "identity"), dtype="any", max_paths=4, min_steps=2, max_steps=6),
-        examples={"quick": 320, "thorough": 3200}),
+        examples={"quick": 640, "thorough": 6400}),
     Sub("history", check_history,
         rule="op sequences of length 2..10 over {simulate, compute_hedge, compute_pl, compute_portfolio, compute_loss, price, fit(1 epoch), "
              "to(dtype), train/eval, feature re-binding} on one hedger (Linear / MLP / recurrent; H in {1,2}; inputs incl. log, "
              "max-log, module-output and prev_hedge features) with 2-3 derivatives on 2 underliers. Non-trivial: >=2 derivatives "
              "used with a state-dependent input, or a computing op with a log feature.",
-        strategy=lambda tier: history_case(), examples={"quick": 640, "thorough": 6400}, fuzz={"thorough": 120.0}),
+        strategy=lambda tier: history_case(), examples={"quick": 1600, "thorough": 16000}, fuzz={"thorough": 120.0}),
 ]
